@@ -205,6 +205,8 @@ func dhtIterate(nodes []NodeInfo, key []byte, n int, fn func(node NodeInfo) (new
 	if n < 1 {
 		panic(n)
 	}
+	// visited holds the IDs of the peers fn has been called with, each peer is only contacted once.
+	visited := make(map[p2p.PeerID]struct{})
 	for len(nodes) > 0 {
 		// TODO: use a heap
 		slices.SortFunc(nodes, func(a, b NodeInfo) bool {
@@ -215,6 +217,10 @@ func dhtIterate(nodes []NodeInfo, key []byte, n int, fn func(node NodeInfo) (new
 		}
 		var node NodeInfo
 		node, nodes = pop(nodes)
+		if _, yes := visited[node.ID]; yes {
+			continue // duplicate of a peer which was already contacted
+		}
+		visited[node.ID] = struct{}{}
 
 		newNodes, cont := fn(node)
 		if !cont {
@@ -223,6 +229,9 @@ func dhtIterate(nodes []NodeInfo, key []byte, n int, fn func(node NodeInfo) (new
 		for _, newNode := range newNodes {
 			if !DistanceLt(key, newNode.ID[:], node.ID[:]) {
 				continue // ignore peers that aren't actually closer
+			}
+			if _, yes := visited[newNode.ID]; yes {
+				continue // ignore peers that were already contacted
 			}
 			if !contains(nodes, newNode, func(a, b NodeInfo) bool {
 				return a.ID == b.ID
